@@ -22,7 +22,8 @@
 EXTENDS Integers, Sequences, FiniteSets, TLC, Json
 
 CONSTANTS MaxTasks,       \* <= 4
-          PanicKinds      \* kinds of panic values, e.g. {"string", "error", "nilmap", "nil"}
+          PanicKinds,     \* kinds of panic values, e.g. {"string", "error", "nilmap", "nil"}
+          Modes           \* spawn modes in use, a subset of {"group", "inner", "log"} containing "group"
 
 Range(f) == {f[i] : i \in DOMAIN f}
 
@@ -36,14 +37,14 @@ Res(kind, i) == [k |-> kind, t |-> i]
 \* ---- well-formed configurations ---------------------------------------------------------------
 \* the tasks that may be appended to configuration c
 NextTasks(c) ==
-    {[p |-> 0, m |-> md, e |-> en] : md \in {"group", "log"}, en \in Endings}
+    {[p |-> 0, m |-> md, e |-> en] : md \in Modes \cap {"group", "log"}, en \in Endings}
     \cup {[p |-> pp, m |-> md, e |-> en] : pp \in {j \in DOMAIN c : c[j].m # "log"},
-                                          md \in {"group", "inner", "log"}, en \in Endings}
+                                          md \in Modes, en \in Endings}
 OkTask(t) == t.m = "log" => t.e.k # "err"       \* a plain goroutine has no error to return
 ValidCfg(c) == \A i \in DOMAIN c :
                   /\ c[i].p \in 0..(i - 1)
                   /\ c[i].e \in Endings
-                  /\ c[i].m \in (IF c[i].p = 0 THEN {"group", "log"} ELSE {"group", "inner", "log"})
+                  /\ c[i].m \in (IF c[i].p = 0 THEN Modes \cap {"group", "log"} ELSE Modes)
                   /\ (c[i].p # 0 => c[c[i].p].m # "log")
                   /\ OkTask(c[i])
 
